@@ -339,6 +339,32 @@ def _norm(v):
     raise TranslateError(f'not an integer expression: {v}')
 
 
+def _py(v):
+    """integer expression -> Python expression (same variables)"""
+    k = v[0]
+    if k == 'int':
+        return str(v[1])
+    if k == 'sym':
+        return v[1]
+    if k in ('add', 'mul'):
+        return f"({_py(v[1])} {'+' if k == 'add' else '*'} {_py(v[2])})"
+    if k == 'min':
+        return f'min({_py(v[1])}, {_py(v[2])})'
+    if k == 'phi':
+        return f'({_py(v[3])} if {v[1]} == 0 else {_py(v[2])})'
+    raise TranslateError(f'not an integer expression: {v}')
+
+
+class _Both(str):
+    """Coq text of an expression, with the Python text as attribute .py"""
+
+
+def _norm2(v):
+    r = _Both(_norm(v))
+    r.py = _py(v)
+    return r
+
+
 def _subst(v, m):
     """replace ('field', line, 0) header reads by the symbols they define"""
     if isinstance(v, tuple):
@@ -464,8 +490,8 @@ def translate(repo):
         if set(d) != {'n_node', 'n_element', 'all_dim_nodal_data', 'all_dim_elemental_data', 'n_nodal_data',
                       'nodal_data_dims', 'n_elemental_data', 'elemental_data_dims'}:
             raise TranslateError(f'unexpected header keys {sorted(d)}')
-        out['nodal_header_line'] = _norm(l1)
-        out['elemental_header_line'] = _norm(l2)
+        out['nodal_header_line'] = _norm2(l1)
+        out['elemental_header_line'] = _norm2(l2)
         # ---- the other readers: headers is the dict of symbols
         hd = ('dict', {k: ('sym', s) for k, s in SYMS.items()})
         hd[1]['nodal_data_dims'] = ('other', 'dims')
@@ -489,12 +515,12 @@ def translate(repo):
         e = run('read_nodes')
         if len(set(e.slices)) != 1 or len(e.cols) != 1:
             raise TranslateError('read_nodes: expected one line range and one to_fem_attribute')
-        out['nodes_lo'], out['nodes_hi'] = map(_norm, e.slices[0])
+        out['nodes_lo'], out['nodes_hi'] = map(_norm2, e.slices[0])
         out['node_first_col'] = str(col_args(e.cols[0], 'read_nodes'))
         e = run('read_elements')
         if len(set(e.slices)) != 1 or not e.cols:
             raise TranslateError('read_elements: expected one line range')
-        out['elems_lo'], out['elems_hi'] = map(_norm, e.slices[0])
+        out['elems_lo'], out['elems_hi'] = map(_norm2, e.slices[0])
         firsts = {col_args(c, 'read_elements') for c in e.cols}
         # the comprehension over the per-type strings is not entered by the evaluator: find the
         # remaining to_fem_attribute calls syntactically
@@ -521,8 +547,8 @@ def translate(repo):
             e = run(name)
             if len(e.slices) != 2:
                 raise TranslateError(f'{name}: expected two line ranges (names, rows), found {len(e.slices)}')
-            out[pre + 'names_lo'], out[pre + 'names_hi'] = map(_norm, e.slices[0])
-            out[pre + 'rows_lo'], out[pre + 'rows_hi'] = map(_norm, e.slices[1])
+            out[pre + 'names_lo'], out[pre + 'names_hi'] = map(_norm2, e.slices[0])
+            out[pre + 'rows_lo'], out[pre + 'rows_hi'] = map(_norm2, e.slices[1])
     except U as ex:
         raise TranslateError(f'cannot evaluate: {ex}')
     out['data_first_col'] = str(_assoc_first_column(fns['_read_associated_data']))
@@ -534,6 +560,43 @@ def translate(repo):
 ORDER = ['nodal_header_line', 'elemental_header_line', 'nodes_lo', 'nodes_hi', 'elems_lo', 'elems_hi',
          'nnames_lo', 'nnames_hi', 'nrows_lo', 'nrows_hi', 'enames_lo', 'enames_hi', 'erows_lo', 'erows_hi',
          'node_first_col', 'elem_type_col', 'elem_first_col', 'data_first_col']
+
+
+# the model's positions (coq/C04/Offsets.v, m_*) as Python expressions: used ONLY to classify a failed
+# obligation C04_reader_offsets (is there a difference on header counts a written file can have?)
+MODEL_PY = {
+    'nodal_header_line': 'N + E + 1', 'elemental_header_line': 'N + E + 1 + ND + min(1, ND) * (N + 1)',
+    'nodes_lo': '1', 'nodes_hi': 'N + 1', 'elems_lo': 'N + 1', 'elems_hi': 'N + 1 + E',
+    'nnames_lo': 'N + 1 + E + 1', 'nnames_hi': 'N + 1 + E + 1 + ND', 'nrows_lo': 'N + 1 + E + 1 + ND',
+    'nrows_hi': 'N + 1 + E + 1 + ND + N',
+    'enames_lo': 'N + 1 + E + 1 + min(1, DN) * (ND + N + 1)',
+    'enames_hi': 'N + 1 + E + 1 + min(1, DN) * (ND + N + 1) + NE',
+    'erows_lo': 'N + 1 + E + 1 + min(1, DN) * (ND + N + 1) + NE',
+    'erows_hi': 'N + 1 + E + 1 + min(1, DN) * (ND + N + 1) + NE + E',
+    'node_first_col': '1', 'elem_type_col': '2', 'elem_first_col': '3', 'data_first_col': '1'}
+
+
+def differences(out, bound=4):
+    """small header counts on which a translated quantity differs from the model's; each entry
+    (quantity, counts, writer_reachable).  Counts the reader can see: DN = 0 -> ND = 0, DE = 0 -> NE = 0;
+    counts a written file can have: moreover ND <= DN, NE <= DE, ND = 0 -> DN = 0, NE = 0 -> DE = 0."""
+    import itertools
+    res = []
+    for k in ORDER:
+        src = getattr(out[k], 'py', str(out[k]))
+        for N, E, DN, DE, ND, NE in itertools.product(range(bound), repeat=6):
+            if (DN == 0 and ND) or (DE == 0 and NE):
+                continue
+            # the quantities of a section are only used when the section exists
+            if k.startswith(('nnames', 'nrows', 'nodal_header')) and DN == 0:
+                continue
+            if k.startswith(('enames', 'erows', 'elemental_header')) and DE == 0:
+                continue
+            env = dict(N=N, E=E, DN=DN, DE=DE, ND=ND, NE=NE, min=min)
+            if eval(src, {'__builtins__': {}}, env) != eval(MODEL_PY[k], {'__builtins__': {}}, env):
+                reach = ND <= DN and NE <= DE and (ND > 0 or DN == 0) and (NE > 0 or DE == 0)
+                res.append((k, dict(N=N, E=E, DN=DN, DE=DE, ND=ND, NE=NE), reach))
+    return res
 
 
 def emit(out):
